@@ -1,268 +1,3 @@
-/-
-  C18 — Footprint and pixel grids are the box's corners and pixels, in documented order.
--/
-import GwcsModel.Grid
-import GwcsProofs.C13
-import Mathlib.Tactic.Linarith
-import Mathlib.Tactic.FieldSimp
-import Mathlib.Tactic.Ring
-import Mathlib.Algebra.Order.Field.Rat
-
-namespace Gwcs.Grid
-
-/-! ### grid_from_bounding_box -/
-
-theorem axisNodes_getElem? (lo hi s : Rat) (k : Nat) (h : k < gridCount lo hi s) :
-    (axisNodes lo hi s)[k]? = some (lo + ((k : Int) : Rat) * s) := by
-  unfold axisNodes
-  rw [List.getElem?_map, List.getElem?_range h]
-  rfl
-
-theorem axisNodes_length (lo hi s : Rat) : (axisNodes lo hi s).length = gridCount lo hi s := by
-  simp [axisNodes]
-
-/-- the real number of steps that fit: `(hi + s − lo)/s ≤ n < (hi + s − lo)/s + 1` -/
-theorem gridCount_bounds (lo hi s : Rat) (hs : 0 < s) (hle : lo ≤ hi) :
-    1 ≤ gridCount lo hi s ∧
-      hi - lo ≤ (((gridCount lo hi s : Nat) : Int) : Rat) * s - s ∧
-      (((gridCount lo hi s : Nat) : Int) : Rat) * s - 2 * s < hi - lo := by
-  unfold gridCount
-  set q : Rat := (hi + s - lo) / s with hq
-  have hq1 : 1 ≤ q := by
-    rw [hq, le_div_iff₀ hs]; linarith
-  have hc1 : q ≤ (q.ceil : Rat) := Rat.le_ceil
-  have hc2 : (q.ceil : Rat) < q + 1 := Rat.ceil_lt
-  have hpos : (1 : Int) ≤ q.ceil := by
-    have : (1 : Rat) ≤ (q.ceil : Rat) := le_trans hq1 hc1
-    exact_mod_cast this
-  have hnat : ((q.ceil.toNat : Nat) : Int) = q.ceil := Int.toNat_of_nonneg (by omega)
-  have hqs : q * s = hi + s - lo := by rw [hq]; field_simp
-  refine ⟨by omega, ?_, ?_⟩
-  · rw [hnat]
-    have : q * s ≤ (q.ceil : Rat) * s := mul_le_mul_of_nonneg_right hc1 (le_of_lt hs)
-    linarith
-  · rw [hnat]
-    have : (q.ceil : Rat) * s < (q + 1) * s := mul_lt_mul_of_pos_right hc2 hs
-    linarith
-
-/-- **starts_at_lower.** The lattice starts at the lower limit. -/
-theorem starts_at_lower (lo hi s : Rat) (hs : 0 < s) (hle : lo ≤ hi) :
-    (axisNodes lo hi s)[0]? = some lo := by
-  have h := (gridCount_bounds lo hi s hs hle).1
-  rw [axisNodes_getElem? lo hi s 0 (by omega)]
-  simp
-
-/-- **advances by the requested step.** -/
-theorem advances_by_step (lo hi s : Rat) (k : Nat) (h : k + 1 < gridCount lo hi s) :
-    ∃ a b, (axisNodes lo hi s)[k]? = some a ∧ (axisNodes lo hi s)[k + 1]? = some b ∧ b = a + s := by
-  refine ⟨_, _, axisNodes_getElem? lo hi s k (by omega), axisNodes_getElem? lo hi s (k + 1) h, ?_⟩
-  push_cast; ring
-
-/-- **stops_at_first_reaching_upper.** The last node has reached the upper limit and the one before
-    it (if any) has not. -/
-theorem stops_at_first_reaching_upper (lo hi s : Rat) (hs : 0 < s) (hle : lo ≤ hi) :
-    let n := gridCount lo hi s
-    (∃ last, (axisNodes lo hi s)[n - 1]? = some last ∧ hi ≤ last) ∧
-      (2 ≤ n → ∃ prev, (axisNodes lo hi s)[n - 2]? = some prev ∧ prev < hi) := by
-  intro n
-  obtain ⟨h1, h2, h3⟩ := gridCount_bounds lo hi s hs hle
-  constructor
-  · refine ⟨_, axisNodes_getElem? lo hi s (n - 1) (by omega), ?_⟩
-    have : (((n - 1 : Nat) : Int) : Rat) = (((n : Nat) : Int) : Rat) - 1 := by
-      have : ((n - 1 : Nat) : Int) = (n : Int) - 1 := by omega
-      rw [this]; push_cast; ring
-    rw [this]
-    have : ((((n : Nat) : Int) : Rat) - 1) * s = (((n : Nat) : Int) : Rat) * s - s := by ring
-    linarith
-  · intro h2n
-    refine ⟨_, axisNodes_getElem? lo hi s (n - 2) (by omega), ?_⟩
-    have : (((n - 2 : Nat) : Int) : Rat) = (((n : Nat) : Int) : Rat) - 2 := by
-      have : ((n - 2 : Nat) : Int) = (n : Int) - 2 := by omega
-      rw [this]; push_cast; ring
-    rw [this]
-    have : ((((n : Nat) : Int) : Rat) - 2) * s = (((n : Nat) : Int) : Rat) * s - 2 * s := by ring
-    linarith
-
-/-- **unit_centred_is_overlapping_pixels.** With centring and unit step the nodes along an axis are
-    exactly the integers `m` whose open pixel `(m − ½, m + ½)` meets the closed box `[lo, hi]`, i.e.
-    `lo − ½ < m < hi + ½`: a limit at `k + ½` goes to the pixel inside the box. -/
-theorem unit_centred_is_overlapping_pixels (lo hi : Rat) (m : Int) :
-    ((m : Rat) ∈ axisNodes (bboxToPixel (lo, hi)).1 (bboxToPixel (lo, hi)).2 1) ↔
-      (lo - 1 / 2 < (m : Rat) ∧ (m : Rat) < hi + 1 / 2) := by
-  unfold bboxToPixel axisNodes gridCount
-  simp only
-  set a : Int := (lo + 1 / 2).floor with ha
-  set b : Int := (hi - 1 / 2).ceil with hb
-  have hcount : ((((b : Rat) + 1 - (a : Rat)) / 1).ceil).toNat = (b + 1 - a).toNat := by
-    have : ((b : Rat) + 1 - (a : Rat)) / 1 = ((b + 1 - a : Int) : Rat) := by push_cast; ring
-    rw [this, Rat.ceil_intCast]
-  rw [hcount]
-  have hfl : a ≤ m ↔ lo - 1 / 2 < (m : Rat) := by
-    have h1 : a ≤ m ↔ a < m + 1 := by omega
-    rw [h1, ha, Rat.floor_lt_iff]
-    push_cast
-    constructor <;> intro h <;> linarith
-  have hce : m ≤ b ↔ (m : Rat) < hi + 1 / 2 := by
-    have h1 : m ≤ b ↔ m - 1 < b := by omega
-    rw [h1, hb, Rat.lt_ceil_iff]
-    push_cast
-    constructor <;> intro h <;> linarith
-  rw [← hfl, ← hce]
-  simp only [List.mem_map, List.mem_range]
-  constructor
-  · rintro ⟨k, hk, hm⟩
-    have : (m : Rat) = ((a + (k : Int) : Int) : Rat) := by rw [← hm]; push_cast; ring
-    have hmk : m = a + (k : Int) := by exact_mod_cast this
-    omega
-  · rintro ⟨h1, h2⟩
-    refine ⟨(m - a).toNat, by omega, ?_⟩
-    have : (((m - a).toNat : Nat) : Int) = m - a := Int.toNat_of_nonneg (by omega)
-    rw [this]; push_cast; ring
-
-theorem broadcastStep_length (nd : Nat) (step st : List Rat) (h : broadcastStep nd step = .ok st) : st.length = nd := by
-  unfold broadcastStep at h
-  simp only at h
-  by_cases hl : (if nd > 1 ∧ step.length = 1 then List.replicate nd (step.headD 1) else step).length = nd
-  · rw [if_pos hl] at h
-    injection h with h
-    rw [← h]; exact hl
-  · rw [if_neg hl] at h; cases h
-
-/-- **order_xy / per_axis_step.** Axis `i` of the result is the lattice of the `i`-th interval with
-    the `i`-th step: the grid is in (x, y, …) order with per-axis steps. -/
-theorem order_xy (bb : List (Rat × Rat)) (step : List Rat) (center : Bool) (axes : List (List Rat))
-    (h : gridAxes bb step center = .ok axes) (i : Nat) (hi : i < bb.length) :
-    ∃ st : List Rat, broadcastStep bb.length step = .ok st ∧
-      ∃ (h1 : i < (limits bb center).length) (h2 : i < st.length),
-        axes[i]? = some (axisNodes ((limits bb center)[i]).1 ((limits bb center)[i]).2 st[i]) := by
-  unfold gridAxes at h
-  cases hb : broadcastStep bb.length step with
-  | error e => simp [hb, bind, Except.bind] at h
-  | ok st =>
-    simp only [hb, bind, Except.bind, pure, Except.pure] at h
-    split at h
-    · cases h
-    injection h with h
-    have hlen : st.length = bb.length := broadcastStep_length _ _ _ hb
-    have hl : (limits bb center).length = bb.length := by
-      unfold limits; split <;> simp
-    have h1 : i < (limits bb center).length := by omega
-    have h2 : i < st.length := by omega
-    refine ⟨st, rfl, h1, h2, ?_⟩
-    rw [← h, List.getElem?_map]
-    have : ((limits bb center).zip st)[i]? = some ((limits bb center)[i], st[i]) :=
-      List.getElem?_zip_eq_some.mpr ⟨List.getElem?_eq_getElem h1, List.getElem?_eq_getElem h2⟩
-    rw [this]; rfl
-
-/-- a scalar step applies to every axis -/
-theorem scalar_step_broadcast (nd : Nat) (s : Rat) (h : 1 < nd) :
-    broadcastStep nd [s] = .ok (List.replicate nd s) := by
-  simp [broadcastStep, h]
-
-/-- a step tuple of the wrong length is refused -/
-theorem bad_step_refused (nd : Nat) (step : List Rat) (h1 : step.length ≠ nd) (h2 : step.length ≠ 1) :
-    broadcastStep nd step = .error .valueErr := by
-  simp [broadcastStep, h1, h2]
-
-/-! ### footprint -/
-
-/-- **no_box_refused.** Without any bounding box the footprint is refused. -/
-theorem no_box_refused (f : List Rat → Except Err (List Rat)) (center : Bool) (types : List String) (at' : String) :
-    footprint f none none center types at' = .error .typeErr := rfl
-
-/-- the box passed in wins over the WCS's own; the own box is used when none is passed -/
-theorem chooseBox_passed (b : List (Rat × Rat)) (own : Option (List (Rat × Rat))) : chooseBox (some b) own = .ok b := rfl
-theorem chooseBox_own (b : List (Rat × Rat)) : chooseBox none (some b) = .ok b := rfl
-
-/-- **clockwise_from_lower_left.** For an all-spatial output the corners are listed
-    lower-left, upper-left, upper-right, lower-right. -/
-theorem clockwise_from_lower_left (x y : Rat × Rat) (rest : List (Rat × Rat)) :
-    orderClockwise (x :: y :: rest) = .ok [[x.1, y.1], [x.1, y.2], [x.2, y.2], [x.2, y.1]] := rfl
-
-/-- **centre_moves_to_pixel_centres.** With centring every corner coordinate is replaced by its
-    nearest pixel centre before the transform is applied. -/
-theorem centre_moves_to_pixel_centres (box : List (Rat × Rat)) (types : List String) (raw : List (List Rat))
-    (h : corners box types false = .ok raw) :
-    corners box types true = .ok (raw.map (fun v => v.map (fun c => ((Api.toIndex c : Int) : Rat)))) := by
-  unfold corners at h ⊢
-  cases hc : (if allSpatial types then orderClockwise box else .ok (product box)) with
-  | error e => simp [hc, Except.map] at h
-  | ok v =>
-    simp only [hc, Except.map, Bool.false_eq_true, if_false] at h
-    injection h with h; subst h
-    simp [Except.map]
-
-/-- **footprint_is_image_of_corners.** For `axis_type = "all"` the footprint is the unmasked forward
-    image of the corners of the chosen box, in the listed order. -/
-theorem footprint_is_image_of_corners (f : List Rat → Except Err (List Rat)) (bb own : Option (List (Rat × Rat)))
-    (box : List (Rat × Rat)) (hbox : chooseBox bb own = .ok box) (center : Bool) (types : List String)
-    (verts : List (List Rat)) (hv : corners box types center = .ok verts) :
-    footprint f bb own center types "all" = (verts.mapM f).map FootOut.points := by
-  unfold footprint
-  simp only [hbox, hv, bind, Except.bind]
-  cases verts.mapM f with
-  | error e => rfl
-  | ok r =>
-    simp only [Except.map]
-    unfold reduceAxisType
-    have h1 : (("all" : String) == "spatial") = false := by decide
-    have h2 : (("all" : String) != "all") = false := by decide
-    simp [h1, h2]
-
-/-- **product_order (size).** The general footprint lists the full product of the per-axis limits:
-    `2ⁿ` corners. -/
-theorem product_length : ∀ (bb : List (Rat × Rat)), (product bb).length = 2 ^ bb.length
-  | [] => rfl
-  | iv :: rest => by simp [product, product_length rest, Nat.pow_succ]; omega
-
-/-- … every corner takes, on each axis, either the lower or the upper limit of that axis … -/
-theorem product_mem : ∀ (bb : List (Rat × Rat)) (p : List Rat), p ∈ product bb →
-    p.length = bb.length ∧ ∀ i (h1 : i < p.length) (h2 : i < bb.length), p[i] = bb[i].1 ∨ p[i] = bb[i].2
-  | [], p, h => by simp [product] at h; subst h; simp
-  | iv :: rest, p, h => by
-    simp only [product, List.mem_append, List.mem_map] at h
-    rcases h with ⟨q, hq, rfl⟩ | ⟨q, hq, rfl⟩
-    all_goals
-      obtain ⟨hl, hall⟩ := product_mem rest q hq
-      refine ⟨by simp [hl], ?_⟩
-      intro i h1 h2
-      cases i with
-      | zero => simp
-      | succ i => simpa using hall i (by simpa using h1) (by simpa using h2)
-
-/-- … in `itertools.product` order: the first axis is the slowest, first its lower half. -/
-theorem product_order_first (iv : Rat × Rat) (rest : List (Rat × Rat)) (k : Nat) (hk : k < 2 ^ rest.length) :
-    ((product (iv :: rest))[k]?).bind (·[0]?) = some iv.1 ∧
-      ((product (iv :: rest))[k + 2 ^ rest.length]?).bind (·[0]?) = some iv.2 := by
-  have hl := product_length rest
-  constructor
-  · simp only [product]
-    rw [List.getElem?_append_left (by simp [hl]; exact hk)]
-    simp [List.getElem?_map, List.getElem?_eq_getElem (show k < (product rest).length by omega)]
-  · simp only [product]
-    rw [List.getElem?_append_right (by simp [hl])]
-    simp [hl, List.getElem?_map, List.getElem?_eq_getElem (show k < (product rest).length by omega)]
-
-end Gwcs.Grid
-
-namespace Gwcs.Grid
-
-/-- **axis_type_spelling_irrelevant.** Two spellings of the requested type that differ only in case (and frames that report their
-types in any case) give the same footprint. -/
-theorem axis_type_spelling_irrelevant (f : List Rat → Except Err (List Rat)) (bb own : Option (List (Rat × Rat))) (center : Bool)
-    (t1 t2 : List String) (a1 a2 : String) (ht : t1.map String.toLower = t2.map String.toLower) (ha : a1.toLower = a2.toLower) :
-    footprintRaw f bb own center t1 a1 = footprintRaw f bb own center t2 a2 := by
-  have hn : ∀ s : String, normType s = (if s.toLower == "time" then "temporal" else s.toLower) := fun _ => rfl
-  have h1 : t1.map normType = t2.map normType := by
-    have : ∀ l : List String, l.map normType = (l.map String.toLower).map (fun l => if l == "time" then "temporal" else l) := by
-      intro l; simp [List.map_map, Function.comp_def, hn]
-    rw [this t1, this t2, ht]
-  have h2 : normType a1 = normType a2 := by rw [hn, hn, ha]
-  unfold footprintRaw
-  rw [h1, h2]
-
-/-- **temporal_alias.** 'TIME' (what a `TemporalFrame` reports), 'time' and 'Temporal' all name the documented type 'temporal'. -/
-theorem temporal_alias : normType "TIME" = "temporal" ∧ normType "time" = "temporal" ∧ normType "Temporal" = "temporal" ∧
-    normType "SPATIAL" = "spatial" := by decide +kernel
-
-end Gwcs.Grid
+-- C18: grid_from_bounding_box / footprint (C18a) and the SIP sampling lattice (C18b)
+import GwcsProofs.C18a
+import GwcsProofs.C18b
